@@ -224,6 +224,10 @@ def _word_exact_worker(d, chunk, extra):
             if len(gq) != 1 or len(gn) != 1 or gq[0]["err"] or gn[0]["err"] or gq[0]["odd"] or gn[0]["odd"]:
                 continue
             a, b = gq[0], gn[0]
+            for nm, x in (("?" + w, a), ("!" + w, b)):
+                if x["res"] not in ([], [x["in"]]):
+                    bad.append((key + "|unchanged", "`%s` on stack <%s> yields %r: an assertion yields nothing or the unchanged stack" % (nm, x["in"], x["res"]),
+                                {"w": w, "v": v, "kind": "unchanged"}))
             diag = bool(rq.stderr.strip()) or bool(rn.stderr.strip())
             if diag and (a["res"] or b["res"]):
                 which = " and ".join(nm for nm, x in (("?" + w, a), ("!" + w, b)) if x["res"])
@@ -240,6 +244,8 @@ DW_VALUE_LIST = ["", "entry (pos == 0)", "entry (pos == 1)", "entry (pos == 3)",
                  "unit (pos == 0)", "entry (pos == 1) abbrev", "entry (pos == 1) abbrev attribute (pos == 0)", "abbrev (pos == 0)", "symbol (pos == 1)",
                  "entry (pos == 0) address", "entry (pos == 1) label", "entry (pos == 1) attribute (pos == 0) form", "entry (pos == 1) attribute (pos == 0) label",
                  "drop 1", 'drop "a"', "drop [1]", "symbol (pos == 1) label", "drop DW_LANG_C", "drop DW_OP_addr", "drop",
+                 "drop 0 4 aset 2 6 aset", "drop 0 4 aset 1 2 aset", "drop 1 2 aset 0 4 aset", "drop 0 4 aset 5 6 aset", "drop 0 4 aset 0 4 aset", "drop 0 0 aset 0 4 aset",
+                 "drop 0 4 aset 2", "drop 0 4 aset 4", "drop 2 0 4 aset", "drop 0 2 aset 4 6 aset add 1 5 aset", "(|D| D entry (pos == 0) address D entry (pos == 0) address)",
                  "entry (pos == 1) 1", 'entry (pos == 1) "a"', "(|D| D entry (pos == 1) D entry (pos == 3))", "(|D| D entry (pos == 1) attribute (pos == 0) D entry (pos == 1))"]
 
 
